@@ -109,6 +109,9 @@ type GetFn = unsafe extern "C" fn() -> i32;
 pub fn mlock_set(k: i32) -> bool {
     unsafe { let s = libc::dlsym(libc::RTLD_DEFAULT, b"verif_mlock_set\0".as_ptr() as *const _); if s.is_null() { return false; } let f: SetFn = std::mem::transmute(s); f(k); true }
 }
+pub fn mlock_errno(e: i32) -> bool {
+    unsafe { let s = libc::dlsym(libc::RTLD_DEFAULT, b"verif_mlock_errno\0".as_ptr() as *const _); if s.is_null() { return false; } let f: SetFn = std::mem::transmute(s); f(e); true }
+}
 pub fn mlock_calls() -> i32 {
     unsafe { let s = libc::dlsym(libc::RTLD_DEFAULT, b"verif_mlock_calls\0".as_ptr() as *const _); if s.is_null() { return -1; } let f: GetFn = std::mem::transmute(s); f() }
 }
@@ -290,7 +293,7 @@ pub fn run_sequence(container: usize, len: usize, ops: &[Op], fail_from: i32) ->
     unsafe { libc::pipe(fds.as_mut_ptr()); }
     let pid = unsafe { libc::fork() };
     if pid == 0 {
-        unsafe { libc::close(fds[0]); libc::mallopt(-6 /* M_PERTURB */, 0x11); }
+        unsafe { libc::close(fds[0]); libc::mallopt(-6 /* M_PERTURB */, 0x11); libc::alarm(60); }   // a sequence that does not finish is killed (SIGALRM) and reported
         let mut w = unsafe { <std::fs::File as std::os::unix::io::FromRawFd>::from_raw_fd(fds[1]) };
         match container { 0 => run_hb::go(len, ops, &mut w, fail_from), 1 => run_a1::go(1, ops, &mut w, fail_from), 16 => run_a16::go(16, ops, &mut w, fail_from), 64 => run_a64::go(64, ops, &mut w, fail_from),
             4095 => run_a4095::go(4095, ops, &mut w, fail_from), 4096 => run_a4096::go(4096, ops, &mut w, fail_from), 4097 => run_a4097::go(4097, ops, &mut w, fail_from), _ => run_a8193::go(8193, ops, &mut w, fail_from) }
@@ -471,11 +474,20 @@ pub fn run_c19(out: &mut Out, tier: &str, _seed: u64) {
                 let run = run_sequence(container, *len, ops, k);
                 out.search_evaluations += 1;
                 let rp = json!({"op":"protected.mlock-refused","container": if container == 0 { "HeapBytes".to_string() } else { format!("HeapByteArray<{}>", container) },"len":len,"ops":seq_names(ops),"refuse_from_call":k});
+                if run.signal == libc::SIGALRM { out.hit("protected.mlock-refused.hangs", format!("no result within 60 s (refusing from call {}), length {}", k, len), rp.clone()); continue; }
                 if run.signal != 0 { out.hit("protected.mlock-refused.aborts", format!("signal {} (refusing from call {}), length {}", run.signal, k, len), rp.clone()); continue; }
                 for (idx, o) in run.obs.iter().enumerate() {
                     let result_returning = matches!(o.op.as_str(), "create" | "mlock" | "munlock" | "mprotect_readonly" | "mprotect_readwrite" | "mprotect_noaccess");
                     if o.result == "panic" && result_returning { out.hit(&format!("protected.mlock-refused.panics.{}", if o.op == "create" { "from_slice_into_locked" } else { "transition" }), format!("{} (step {}) panicked when mlock call {} was refused, length {}", o.op, idx, k, len), rp.clone()); }
                 }
+                // a refused lock must come back as an error: a step that reports success leaves exactly the pages locked that the type state says
+                { let mut live_clone_pages_locked = 0usize;
+                  for (idx, o) in run.obs.iter().enumerate() {
+                    if o.result != "ok" { break; }
+                    if o.op == "clone" && o.locked { live_clone_pages_locked += pages_spanned(o.len); }
+                    if o.len > 0 { let want = if o.locked { pages_spanned(o.len) } else { 0 } + live_clone_pages_locked;
+                        if o.vmlck_pages != want { out.hit("protected.mlock-refused.reported-as-success", format!("{} (step {}) returned Ok with the type state {} but {} pages are locked (refusing from call {}), length {}", o.op, idx, if o.locked { "Locked" } else { "Unlocked" }, o.vmlck_pages, k, len), rp.clone()); break; } }
+                  } }
                 for c in run.clone_obs.iter() { if c.len > 0 && (c.first != expected_perm(c.pm) || c.last != expected_perm(c.pm)) { out.hit("protected.mlock-refused.earlier-region-damaged", format!("length {}", len), rp.clone()); } }
                 if let Some(v) = run.final_vmlck { if v != 0 { out.hit("protected.mlock-refused.residual-locked-pages", format!("{} pages locked after cleanup (refusing from call {})", v, k), rp.clone()); } }
                 for (size, nz) in run.releases.iter() { if *nz > 0 { out.hit("protected.mlock-refused.released-unwiped", format!("{} bytes, {} non-zero (refusing from call {})", size, nz, k), rp.clone()); } }
@@ -486,6 +498,27 @@ pub fn run_c19(out: &mut Out, tier: &str, _seed: u64) {
             }
         }
     }
+    // the other ways the OS refuses (mlock(2): EPERM without the privilege, EAGAIN when the pages cannot be locked now): an error too, in bounded time
+    for e in [libc::EAGAIN, libc::EPERM] {
+        mlock_errno(e);
+        let seqs: Vec<Vec<Op>> = sequences(2, true, true, false).into_iter().filter(|s| s.len() <= 2).collect();
+        'outer: for len in [64usize, PAGE + 1] { for ops in seqs.iter() {
+            let base = run_sequence(0, len, ops, 0);
+            for k in 1..=base.mlock_calls.max(1) {
+                let run = run_sequence(0, len, ops, k);
+                out.search_evaluations += 1;
+                let rp = json!({"op":"protected.mlock-refused","container":"HeapBytes","len":len,"ops":seq_names(ops),"refuse_from_call":k,"errno":e});
+                if run.signal == libc::SIGALRM { out.hit("protected.mlock-refused.hangs", format!("errno {}: no result within 60 s (refusing from call {}), length {}", e, k, len), rp.clone()); break 'outer; }
+                if run.signal != 0 { out.hit("protected.mlock-refused.aborts", format!("errno {}: signal {} (refusing from call {}), length {}", e, run.signal, k, len), rp.clone()); continue; }
+                for (idx, o) in run.obs.iter().enumerate() {
+                    let result_returning = matches!(o.op.as_str(), "create" | "mlock" | "munlock" | "mprotect_readonly" | "mprotect_readwrite" | "mprotect_noaccess");
+                    if o.result == "panic" && result_returning { out.hit("protected.mlock-refused.panics.other-errno", format!("errno {}: {} (step {}) panicked, length {}", e, o.op, idx, len), rp.clone()); }
+                }
+                if let Some(v) = run.final_vmlck { if v != 0 { out.hit("protected.mlock-refused.residual-locked-pages", format!("errno {}: {} pages locked after cleanup", e, v), rp.clone()); } }
+            }
+        } }
+    }
+    mlock_errno(libc::ENOMEM);
     // the other Result-returning constructors
     for (name, f) in [("HeapBytes::new_locked", 0), ("HeapBytes::gen_locked", 1), ("HeapByteArray<32>::new_locked", 2), ("HeapByteArray<32>::gen_readonly_locked", 3), ("HeapBytes::from_slice_into_readonly_locked", 4), ("HeapByteArray<32>::from_slice_into_locked", 5)] {
         let mut fds = [0i32; 2]; unsafe { libc::pipe(fds.as_mut_ptr()); }
